@@ -576,9 +576,9 @@ def r20_4(ctx: Ctx, R: Resolver):
            "--mol takes three files per species (appended), --scale is a float defaulting to the library's 0.5",
            node=main.node, options=dests)
     # discovered triple layout
-    lst = [s for s in walk_no_nested(main.node) if isinstance(s, ast.Assign) and isinstance(s.value, ast.List)
-           and len(s.value.elts) == 3 and all(isinstance(e, ast.Subscript) and isinstance(e.slice, ast.Constant) for e in s.value.elts)]
-    okl = bool(lst) and [e.slice.value for e in lst[0].value.elts] == ["top_CG", "coor_AA", "top_AA"]
+    lst = [s for s in walk_no_nested(main.node) if isinstance(s, ast.List)
+           and len(s.elts) == 3 and all(isinstance(e, ast.Subscript) and isinstance(e.slice, ast.Constant) for e in s.elts)]
+    okl = bool(lst) and [e.slice.value for e in lst[0].elts] == ["top_CG", "coor_AA", "top_AA"]
     ctx.ob("R20.4", main, lst[0] if lst else "discovered triple", okl,
            "a discovered species is listed as (start topology, end coordinates, end topology), the order auto_map consumes",
            node=lst[0] if lst else main.node)
